@@ -78,9 +78,14 @@ Init ==
   /\ cstate = [c \in Conns |-> "none"] /\ open = {} /\ dead = {}
 
 -----------------------------------------------------------------------------
-(* w.waiting() reads the ready channel without w.mu.  cancel closes the channel somewhere  *)
-(* inside its critical section, so while a cancel is in progress both answers are possible. *)
-MaybeWaiting(x) == wst[x] \in {"waiting", "cancelling"}
+(* w.waiting() reads the ready channel without w.mu, somewhere inside a connsLock critical   *)
+(* section whose log line is written at its end.  A cancel (which needs only w.mu) can run   *)
+(* between that read and the log line, and it closes the channel somewhere inside its own    *)
+(* critical section.  So a waiter that is still queued and whose cancel is in progress or    *)
+(* already logged may have been seen "waiting" (nobody has observed its cancel through the   *)
+(* queue yet, otherwise it would have been popped); a waiter logged as waiting is never seen *)
+(* as not waiting.  tryDeliver, in contrast, is exact: it runs under w.mu.                   *)
+MaybeWaiting(x) == wst[x] \in {"waiting", "cancelling", "cancelled"}
 MaybeNotWaiting(x) == wst[x] # "waiting"
 \* tryDeliver succeeds iff, under w.mu, neither conn nor err is set
 Deliverable(x) == wst[x] = "waiting"
